@@ -3,7 +3,7 @@ import Ixd.RmProofs
 /-! Index-level lemmas for the referrers property (C07): what `addDesc`/`rmDesc` of the string-typed index do to the
     entries that carry a subject annotation.  The descending loops are re-expressed through the generic
     `Ixd.descLoop`, so that `Ixd.descLoop_perm` applies. -/
-namespace Upd
+namespace Upd.Rf
 
 theorem swapRemove_eq (l : List Desc) (i : Nat) : swapRemove l i = Ixd.swapRemove l i := by
   unfold swapRemove Ixd.swapRemove; cases l.getLast? <;> rfl
@@ -147,9 +147,9 @@ theorem placeDesc_keep (l : List Desc) (d : Desc) (t s : String) (e : Desc) (he 
     · exact h1 h
     · rw [h2] at h; cases h
   · rw [heq]; simp [he]
-end Upd
+end Upd.Rf
 
-namespace Upd
+namespace Upd.Rf
 /-! ### the loops of `rmDesc` and `addDesc` as instances of the generic descending loop -/
 
 def rmStep (d : Desc) (tag subj : String) (found : Bool) (e : Desc) : Bool × Ixd.Act Desc :=
@@ -236,9 +236,9 @@ theorem addUntag_subj_eq (d : Desc) (S : String) (hS : S ≠ "") :
           intro h; exact h1 ⟨h.1, by simp [h.2.1]⟩
         rw [this]; simp only [Bool.false_eq_true, if_false]
         exact ih ix
-end Upd
+end Upd.Rf
 
-namespace Upd
+namespace Upd.Rf
 /-! ### entries that carry a subject annotation -/
 
 /-- the entry carries a subject annotation (it registers a referrers response) -/
@@ -433,9 +433,9 @@ theorem rmDesc_dig_empty (l : List Desc) :
   rw [Ixd.revSpec_filter _ (fun _ => false) hstep] at h1
   rw [List.filter_eq_self.mpr (by intros; rfl)] at h1
   exact h1.trans (List.reverse_perm _)
-end Upd
+end Upd.Rf
 
-namespace Upd
+namespace Upd.Rf
 /-! ### `moveChildren`, `addUntagLoop`, `addDesc` -/
 
 theorem moveChildren_mem : ∀ (cs : List Desc) (ix : Index) (e : Desc),
@@ -605,9 +605,9 @@ theorem addDesc_nosubj_subSame (ix : Index) (d : Desc) (cs : List Desc)
         have h1 : e.ann.isNil = false := he.1
         have h2 : ¬ e.ann.subj = "" := he.2
         simp [h1, h2]
-end Upd
+end Upd.Rf
 
-namespace Upd
+namespace Upd.Rf
 /-! ### registering a response: `addDesc` of a descriptor that carries exactly a subject -/
 
 /-- the entry would be displaced by a new response `d` for subject `S` -/
@@ -703,4 +703,4 @@ theorem getBySubj_subSame (ix ix' : Index) (S : String) (hS : S ≠ "")
       simp only [Bool.not_eq_true, Bool.decide_and, Bool.and_eq_true, decide_eq_true_eq] at hp'
       have hsub' : Sub e' := ⟨hp'.1, by rw [hp'.2]; exact hS⟩
       exact hf e' ((h e' hsub' hp'.2).mp hmem') e hmem hsub' hsub (hp'.2.trans hp.2.symm)
-end Upd
+end Upd.Rf
